@@ -4,6 +4,12 @@ import json, glob, os, re
 V = os.path.dirname(os.path.abspath(__file__))
 # what had to be strengthened before the check caught the change (hand-maintained)
 STRENGTHENED = {
+ "C03f-m2": "short-edge and tiny-polygon families (edge / extent 1e-9..1e-15 at extents 1e-3..1e6) in the C03 polygon stratum, Mesh2D / Mesh2DSlow evaluated directly, a rejected simple polygon is a failing input",
+ "C02f-m1": "arrays / rotate-unions / rotate-copies against the fold over ALL copies computed in the harness (1..20 copies per axis, disjoint and overlapping, blends with k up to 10x the pitch incl. harness-defined blends, stretched operands probed far outside)",
+ "C02f-m2": "aliasing histories on caller-owned operand slices with the pointwise-minimum oracle",
+ "C18f-m1": "conversion programs on ThreadParameters values (lookup / new / copy / conv / set) run next to a value model: mutate the returned struct, convert again, copy after conversion, alternate entries",
+ "C09f-m1": "custom sinks through the public buffer constructors (buffered channels of capacity 1, 2, 64; readers lagging k batches or sleeping) compared with a prompt unbuffered reader",
+ "C09f-m2": "deep trees (12-14 levels: long thin shapes at 520..2100 cells) with evaluation-time skew aligned to the tree, exact sequences compared across skews and GOMAXPROCS",
  "C01e-m1": "look-alike transform matrices (determinant exactly / nearly +-1 but not orthogonal, shears, unimodular, rotation plus tiny shear) under Transform and RotateUnion in the tree generator, with a parameter-derived probe oracle",
  "C02e-m1": "operands with flat / point bounding boxes under every box-building combinator; box-free pointwise-minimum reference computed from the leaves",
  "C03e-m1": "polygon families on the split lines of their own quadtree (stairs, steps, skylines, hulls of grid crossings) with the exact signed-distance and Lipschitz oracles",
